@@ -522,6 +522,16 @@ class Builder:
 
     def probe(self, e=None):
         """Statements printing a value."""
+        if e is None and 'bytes' in self.F and 'arrays' in self.F and self.chance(7):
+            # write of a whole byte array (library loop over const-section or state storage; lengths from 0)
+            bs = self.vars_of(lambda v: is_arr(v.ty) and v.ty[1] == BYTE)
+            ss = self.vars_of(lambda v: v.ty == STRING) if 'strings' in self.F else []
+            if bs and (not ss or self.chance(70)):
+                v = self.pick(bs)
+                return [ExprStmt(Call(self.pick(['write', 'writeln']), [Var(v.name, t=v.ty)], t=EMPTY))]
+            if ss:
+                v = self.pick(ss)
+                return [ExprStmt(Call('write', [Is(Var(v.name, t=STRING), arr(BYTE, True), t=arr(BYTE, True))], t=EMPTY))]
         if e is None:
             tys = [INT]
             if 'bools' in self.F:
@@ -685,6 +695,32 @@ class Builder:
             last = Index(Var(name, t=ty), Lit('int', n - 1, None, t=INT), t=el)
             out += self.probe(Is(last, INT, t=INT) if el == BYTE else last)
         return out
+
+    def discard_stmt(self):
+        """An expression statement that is not a call, its value discarded: a lookup whose *index* calls a function with
+        an observable effect (`a[m() * 0 + k];`, `-a[..];`, `a[k] + a[..];`).  The call still has to happen."""
+        names = {v.name for scope in self.scopes for v in scope}
+        cands = [m for n, m in getattr(self, 'mutators', {}).items() if m[1] == INT and not is_arr(m[2].ty) and n not in names]
+        arrs = self.vars_of(lambda v: is_arr(v.ty) and v.static_len and v.ty[1] in (INT, BYTE, BOOL))
+        if not cands or not arrs:
+            return None
+        mname, _, g = self.pick(cands)
+        a = self.pick(arrs)
+        el = a.ty[1]
+        k = self.integer(0, a.static_len - 1)
+        call = Call(mname, [], t=INT)
+        idx = Bin('+', Bin('*', call, Lit('int', 0, None, t=INT), t=INT), Lit('int', k, None, t=INT), t=INT)
+        look = Index(Var(a.name, t=a.ty), idx, t=el)
+        form = self.integer(0, 3)
+        if form == 0 or el == BOOL:
+            e = look
+        elif form == 1:
+            e = Un('-', look, t=INT)
+        elif form == 2:
+            e = Bin('+', Index(Var(a.name, t=a.ty), Lit('int', k, None, t=INT), t=el), look, t=INT)
+        else:
+            e = Bin('*', Lit('int', 0, None, t=INT), look, t=INT)
+        return [ExprStmt(e)] + self.probe(Var(g.name, t=INT))
 
     def index_clobber(self):
         """`g = k; a[g] (op)= <expr calling g's mutator>;` - the index is a bare global that the right-hand side changes
@@ -914,6 +950,8 @@ class Builder:
             opts.append((self.size.get('break_weight', 4), 'break_continue'))
         if 'calls' in self.F:
             opts.append((8, 'call'))
+            if 'arrays' in self.F and 'globals' in self.F:
+                opts.append((self.size.get('discard_weight', 2), 'discard'))
         if self.cur_func is not None:
             opts.append((self.size.get('return_weight', 3) if self.cur_func.name != '@is_you' else 1, 'early_return'))
         if 'terminal' in self.F:
@@ -948,6 +986,9 @@ class Builder:
         if k == 'break_continue':
             inner = Break() if self.chance(50) else Continue()
             return [If(self.cond_expr(), Block(self.probe() + [inner]), None)]
+        if k == 'discard':
+            r = self.discard_stmt()
+            return r if r is not None else self.probe()
         if k == 'call':
             fs = [f for ret in (EMPTY, INT, BOOL, BYTE, STRING) for f in self.callable_funcs(ret)]
             if not fs:
@@ -1018,10 +1059,32 @@ class Builder:
         return [For(Decl(INT, False, i, Lit('int', 0, None, t=INT)), Bin('<', iv, bound, t=BOOL),
                     AugAssign(iv, '+', Lit('int', step, None, t=INT)), body)]
 
+    def retry_loop(self):
+        """`while (true) { w -= 1; if (w > 0) { ..; continue; } ..; return v; }` / the `for (;;)` twin: a trivially infinite
+        loop whose body never completes but whose continue is taken at run time."""
+        c = self.fresh('w')
+        n = self.integer(1, max(1, self.size['loop_iters']))
+        cv = Var(c, t=INT)
+        self.declare(VarInfo(c, INT, frozen=True))
+        self.loop_depth += 1
+        self.scopes.append([])
+        body = [AugAssign(cv, '-', Lit('int', 1, None, t=INT)),
+                If(Bin('>', cv, Lit('int', 0, None, t=INT), t=BOOL), Block(self.probe() + [Continue()]), None)]
+        body += self.probe()
+        body.append(Return(None if self.cur_ret == EMPTY else self.coercing(self.cur_ret, 1)))
+        self.scopes.pop()
+        self.loop_depth -= 1
+        decl = Decl(INT, False, c, Lit('int', n, None, t=INT))
+        if self.chance(50):
+            return [decl, While(Lit('bool', True, None, t=BOOL), Block(body))]
+        return [decl, For(None, None, None, Block(body))]
+
     def search_loop(self):
         """The search idiom: a conditional loop without break whose body never completes in straight-line flow
         (`if (..) { continue; } return ..;` or just `return ..;`), followed by code that runs when the loop ends
         through its condition (not found / zero iterations)."""
+        if self.chance(25):
+            return self.retry_loop()
         loop = (self.for_loop if self.chance(60) else self.while_loop)(search=True)
         return loop
 
